@@ -206,7 +206,8 @@ class Check(core.PropertyCheck):
         return {}
 
     def model_constants(self, tier):
-        return {"Ts": frozenset(TS), "Ps": frozenset(PS), "Ds": frozenset(DS), "Ss": frozenset(SS)}
+        ts = [t for t in TS if tier != "quick" or t not in ("svg", "octet", "js")]  # quick: one family per code path
+        return {"Ts": frozenset(ts), "Ps": frozenset(PS), "Ds": frozenset(DS), "Ss": frozenset(SS)}
 
     def scenarios(self, ctx, models):
         g = models[0].graph
@@ -215,13 +216,16 @@ class Check(core.PropertyCheck):
             if len(b) != 3:
                 continue
             (_, a1, _), (_, a2, _) = b[1], b[2]
+            # quick: every row without a charset parameter (where the body is sniffed), a 30 % sample of the others
+            if ctx.quick and str(a1[1]) != "none" and ctx.rng.random() >= 0.3:
+                continue
             pred = core.predicted_events(b)
             for var in range(nvar):
                 v = (var + ctx.rng.randrange(6)) if ctx.quick else var
                 yield core.Scenario({"T": str(a1[0]), "P": str(a1[1]), "D": str(a2[0]), "S": str(a2[1]), "var": v,
                                      "req": v % 2 == 1}, predicted=pred, source="model")
         rng = random.Random(ctx.seed * 104729 + 32)
-        for _ in range(3000 if ctx.quick else 20000):
+        for _ in range(1500 if ctx.quick else 20000):
             yield core.Scenario(random_scenario(rng), source="random")
 
     def execute(self, sc):
